@@ -166,6 +166,8 @@ class Models:
             A(0); self.used('std::isfinite: true on reals (DESIGN 4.3-4)'); return z3.BoolVal(True)
         if name in ('isnan', 'isinf'):
             A(0); self.used('std::isnan/isinf: false on reals (DESIGN 4.3-4)'); return z3.BoolVal(False)
+        if name == 'move' and len(args) == 3:
+            return self.fn_move_range(st, rd, args, n, fr)
         if name in ('move', 'forward', 'as_const', 'addressof'):
             return e.ev(args[0], st, fr)
         if name == 'get':
@@ -208,6 +210,29 @@ class Models:
             if isinstance(b, Iter) and b.cty.kind == 'vector':
                 # the range is permuted: its contents become unknown (no property under contract needs more than that)
                 ety = b.cty.args[0]
+                cmp_t = TY.of_node(args[2]).noref() if len(args) > 2 else None
+                natural = cmp_t is None or (cmp_t.kind == 'record' and (cmp_t.name or '').replace('std::', '').startswith('less<'))
+                if ety.kind == 'int' and natural and isinstance(en, Iter):
+                    # ascending sort of an integer range: the result is sorted and is a permutation of the range
+                    # (new[k] = old[P[k]], P a bijection of [first, last) with inverse Pinv)
+                    key = e.vec_data_key(ety)
+                    arr = e.harr(st, key, None)
+                    old_ = z3.Select(arr, b.vref)
+                    new_ = e.fresh(key + '!sorted', old_.sort())
+                    P = e.fresh('sort.perm', z3.ArraySort(I, I)); Pinv = e.fresh('sort.perm_inv', z3.ArraySort(I, I))
+                    lo_, hi_ = b.idx, en.idx
+                    st.pc.append(QForall(lambda k: z3.Implies(z3.And(k >= lo_, k < hi_), z3.And(z3.Select(P, k) >= lo_, z3.Select(P, k) < hi_, z3.Select(new_, k) == z3.Select(old_, z3.Select(P, k)),
+                                                                                         z3.Select(Pinv, z3.Select(P, k)) == k, z3.Select(Pinv, k) >= lo_, z3.Select(Pinv, k) < hi_, z3.Select(P, z3.Select(Pinv, k)) == k)), 1, 'sorted range is a permutation', [new_]))
+                    st.pc.append(QForall(lambda j, k: z3.Implies(z3.And(j >= lo_, j <= k, k < hi_), z3.Select(new_, j) <= z3.Select(new_, k)), 2, 'sorted range ascends', [new_]))
+                    st.pc.append(QForall(lambda k: z3.Implies(z3.Or(k < lo_, k >= hi_), z3.Select(new_, k) == z3.Select(old_, k)), 1, 'outside the sorted range', [new_]))
+                    # sorting an ascending range changes nothing (the sorted permutation of a sorted integer sequence is itself):
+                    # either the range was not ascending - witnessed by a pair (wj, wk) - or every element keeps its place
+                    wj = e.fresh('sort.unsorted_j', I); wk = e.fresh('sort.unsorted_k', I)
+                    unsorted = z3.And(wj >= lo_, wj <= wk, wk < hi_, z3.Select(old_, wj) > z3.Select(old_, wk))
+                    st.pc.append(QForall(lambda k: z3.Or(unsorted, z3.Select(new_, k) == z3.Select(old_, k)), 1, 'sorting a sorted range is the identity', [new_]))
+                    st.heap[key] = z3.Store(arr, b.vref, new_)
+                    self.used('std::sort (ascending, integers): sorted permutation of the range')
+                    return None
                 if e.is_value_type(ety):
                     keys = [e.vec_data_key(ety)] if ety.is_scalar() else [e.vec_data_key(ety, p) for p, lt in e.leaves(ety)]
                     for key in keys:
@@ -635,6 +660,33 @@ class Models:
         if len(normal) != 1: raise Unsupported('accumulate with abrupt exits')
         st.assign_from(normal[0])
         return st.env[acc_key]
+
+    def fn_move_range(self, st, rd, args, n, fr):
+        """std::move(first, last, d_first) on iterators of ONE vector of scalars / pointers, d_first before first (the permitted
+        overlap): destination gets the source values; source positions outside the destination keep an unspecified value"""
+        e = self.e
+        b = e.rv(args[0], st, fr); en = e.rv(args[1], st, fr); d = e.rv(args[2], st, fr)
+        if isinstance(d, Rec) and d.t == 'back_inserter':
+            return self.fn_copy(st, rd, args, n, fr)
+        if not (isinstance(b, Iter) and isinstance(en, Iter) and isinstance(d, Iter) and b.cty.kind == 'vector' and b.cty.args[0].is_scalar()):
+            raise Unsupported('std::move(range) form (%r, %r, %r) at %s' % (b, en, d, e.where(n, fr)))
+        cnt = en.idx - b.idx
+        ln = e.vec_len(st, b.vref)
+        if e.safety_on('bounds'):
+            e.oblige(st, 'safety:move-source-range-inside-the-vector', z3.Implies(cnt > 0, z3.And(en.vref == b.vref, b.idx >= 0, en.idx <= ln)), where=e.where(n, fr))
+            e.oblige(st, 'safety:move-destination-inside-the-vector', z3.Implies(cnt > 0, z3.And(d.idx >= 0, d.idx + cnt <= e.vec_len(st, d.vref))), where=e.where(n, fr))
+            e.oblige(st, 'safety:move-destination-not-inside-the-source-range', z3.Implies(z3.And(cnt > 0, d.vref == b.vref), z3.Or(d.idx < b.idx, d.idx >= en.idx)), where=e.where(n, fr))
+        key = e.vec_data_key(b.cty.args[0])
+        arr = e.harr(st, key, None)
+        if not z3.is_true(z3.simplify(d.vref == b.vref)): raise Unsupported('std::move between different vectors at %s' % e.where(n, fr))
+        old_ = z3.Select(arr, b.vref)
+        new_ = e.fresh(key + '!moved', old_.sort()); junk = e.fresh(key + '!moved_from', old_.sort())
+        is_ptr = b.cty.args[0].kind == 'ptr'
+        st.pc.append(QForall(lambda p: z3.Select(new_, p) == z3.If(z3.And(cnt > 0, p >= d.idx, p < d.idx + cnt), z3.Select(old_, b.idx + (p - d.idx)),
+                                                                z3.If(z3.And(cnt > 0, p >= b.idx, p < en.idx), z3.Select(junk, p) if is_ptr else z3.Select(old_, p), z3.Select(old_, p))), 1, 'std::move(range)', [new_]))
+        st.heap[key] = z3.Store(arr, b.vref, new_)
+        self.used('std::move(first,last,d_first) within one vector: destination = source values, moved-from smart pointers unspecified')
+        return Iter(d.vref, d.idx + z3.If(cnt > 0, cnt, 0), d.cty)
 
     def fn_all_of(self, st, rd, args, n, fr):
         """std::all_of / any_of / none_of over a vector range with a side-effect-free predicate: the predicate is evaluated on an
@@ -1114,6 +1166,20 @@ class Models:
             st.ghost['removal_data_after'] = z3.Select(e.harr(st, e.vec_data_key(obj.ty.args[0]), None), obj.ref) if obj.ty.args[0].is_scalar() else None
             self.bump_epoch(st, obj.ref)
             return Iter(obj.ref, n2, obj.ty)
+        if len(args) == 1 and isinstance(a0, Iter) and e.is_value_type(obj.ty.args[0]) and obj.ty.args[0].is_scalar():
+            # erase(pos): the elements after pos move down by one
+            ln = e.vec_len(st, obj.ref)
+            if e.safety_on('bounds'):
+                e.oblige(st, 'safety:erase-position-inside-the-vector', z3.And(a0.vref == obj.ref, a0.idx >= 0, a0.idx < ln), where=e.where(n, fr))
+            key = e.vec_data_key(obj.ty.args[0])
+            arr = e.harr(st, key, None)
+            old_ = z3.Select(arr, obj.ref)
+            new_ = e.fresh(key + '!erased', old_.sort())
+            st.pc.append(QForall(lambda p: z3.Select(new_, p) == z3.If(p < a0.idx, z3.Select(old_, p), z3.Select(old_, p + 1)), 1, 'vector::erase(pos)', [new_]))
+            st.heap[key] = z3.Store(arr, obj.ref, new_)
+            e.hwrite(st, 'vec.len', obj.ref, ln - 1)
+            self.bump_epoch(st, obj.ref)
+            return Iter(obj.ref, a0.idx, obj.ty)
         raise Unsupported('vector::erase form at %s' % e.where(n, fr))
 
     def m_vector_insert(self, st, obj, bt, args, n, fr):
